@@ -292,6 +292,100 @@ def grammar_case(idx, defn, section):
   return res
 
 
+# ---------------------------------------------------------------------------
+# two entries of one section that differ only in a range of one modifier argument (builders are shared by a section)
+
+def sibling_variants(defn):
+  """(what, variant): copies of a definition whose first modifier has, in one argument, a different range start /
+  a further range; parameters (the same symbols) and form labels are untouched"""
+  import copy
+  out = []
+  for pos, (rng, node) in enumerate(defn):
+    if node[0] != "mod":
+      continue
+    arg = 0 if node[1] == "trans" else len(node[2]) - 1
+    v1 = copy.deepcopy(defn)
+    a_rng, a_node = v1[pos][1][2][arg][0]
+    v1[pos][1][2][arg][0] = (((">=", 2.0) if a_rng is None else (a_rng[0], a_rng[1] + 0.75)), a_node)
+    out.append(("argument %d starts elsewhere" % arg, v1))
+    v2 = copy.deepcopy(defn)
+    last = v2[pos][1][2][arg][-1][0]
+    v2[pos][1][2][arg].append(((">", (last[1] if last else 0.0) + 3.25), ("leaf", "as.constant", [150.0])))
+    out.append(("argument %d has a further range" % arg, v2))
+    break
+  return out
+
+
+def built_pair_functions(scp):
+  from atsim.potentials.config._potential_form_registry import Potential_Form_Registry
+  from atsim.potentials.config._modifier_registry import Modifier_Registry
+  from atsim.potentials.config._pair_potential_builder import Pair_Potential_Builder
+  pfr = Potential_Form_Registry(scp, register_standard=True, register_pymath_functions=True)
+  pots = Pair_Potential_Builder(scp, pfr, Modifier_Registry()).potentials
+  return {(p.speciesA, p.speciesB): p.potentialFunction for p in pots}
+
+
+def sibling_case(idx, defn, which, swapped):
+  from atsim.potentials.config import ConfigParser
+  what, var = sibling_variants(defn)[which]
+  d1, d2 = (var, defn) if swapped else (defn, var)
+  text = "[Tabulation]\ntarget : LAMMPS\n\n[Pair]\nA-B : %s\nA-A : %s\n" % (render(d1), render(d2))
+  res = new_result("two [Pair] entries, definition #%d and a copy in which %s%s" % (idx, what, " (copy first)" if swapped else ""))
+  tags = sorted(set(tags_of(d1) + tags_of(d2)))
+  cp = ConfigParser(io.StringIO(text))
+  shims.install()
+
+  def fn():
+    r = sym("r")
+    tab = {t: sym("p%d" % int(t - 100)) for t in tags}
+    fr = built_pair_functions(_SubstParser(cp, tab))
+    return (term(fr[("A", "B")](r)), term(api_build(d1, tab)(r)), term(fr[("A", "A")](r)), term(api_build(d2, tab)(r)))
+
+  def build(path, wrong=False):
+    if path.exc is not None:
+      raise Structural("exception", "%s: %s" % (type(path.exc).__name__, path.exc))
+    g1, w1, g2, w2 = path.value
+    if wrong:
+      w1 = w1 + 1
+    from symx import elim
+    vcs = []
+    for nm, g, wnt in (("first entry", g1, w1), ("second entry", g2, w2)):
+      if g.eq(wnt) or (not wrong and elim.is_zero_poly(g - wnt)):
+        vcs.append(VC("%s potable==api" % nm, z3.BoolVal(True), info=dict(key="sibling-entries")))
+      else:
+        vcs.append(VC("%s potable==api" % nm, eq_formula(g, wnt), info=dict(key="sibling-entries")))
+    return vcs
+
+  def replay(v, w, path, structural):
+    vals = {t: 0.6 + 0.35 * i + 0.1 * (i % 3) for i, t in enumerate(tags)}
+    e1, e2 = _retag(d1, vals), _retag(d2, vals)
+    t2 = "[Tabulation]\ntarget : LAMMPS\n\n[Pair]\nA-B : %s\nA-A : %s\n" % (render(e1), render(e2))
+    fr = built_pair_functions(ConfigParser(io.StringIO(t2)))
+    bad = []
+    rs = [0.4, 1.0, 1.5, 1.75, 2.25, 2.5, 3.3, 4.0, 5.5]
+    if isinstance(w.get("r"), float) and 0.01 < w["r"] < 30:
+      rs.append(w["r"])
+    for key, e in ((("A", "B"), e1), (("A", "A"), e2)):
+      fa = api_build(e, {x: x for x in tags_of(e)})
+      for r in rs:
+        try:
+          a, b = fr[key](r), fa(r)
+        except (ValueError, ZeroDivisionError, OverflowError, TypeError):
+          continue
+        if isinstance(a, complex) or isinstance(b, complex):
+          continue
+        if not (abs(a - b) <= 1e-9 * max(1.0, abs(b))):
+          bad.append("%s-%s : %s gives %r at r=%r, the Python API composition gives %r" % (key[0], key[1], render(e), a, r, b))
+    return (bool(bad), "; ".join(bad[:3]) or "both entries agree with their API compositions", dict(kind="sibling_entries", model=t2))
+
+  try:
+    explore_and_check(res, fn, build, replay=replay, negative=lambda p: build(p, wrong=True), explorer_kw=dict(max_paths=3000),
+                      use_exp_axioms=True, vc_timeout_ms=30000)
+  finally:
+    shims.uninstall()
+  return res
+
+
 def replay_grammar(defn, section, w):
   from atsim.potentials.config import ConfigParser
   tags = tags_of(defn)
@@ -633,6 +727,11 @@ def cases(tier, seed=0):
     secs = ["Pair"] + ([sections[1 + i % 5]] if q else sections[1:])
     for s in secs:
       cs.append(Case("grammar %d %s" % (i, s), grammar_case, idx=i, defn=d, section=s))
+  sib = [0, 1, 3, 5, 6, len(FIXED) + 1] if q else list(range(len(FIXED) + len(nested_family())))
+  for i in sib:
+    for which in range(len(sibling_variants(defs[i]))):
+      for swapped in ((which % 2 == 1,) if q else (False, True)):
+        cs.append(Case("siblings %d v%d%s" % (i, which, " swapped" if swapped else ""), sibling_case, idx=i, defn=defs[i], which=which, swapped=swapped))
   for name in CUSTOM:
     cs.append(Case("custom %s" % name, custom_case, name=name))
   cs.append(Case("formatting", formatting_case, tier=tier, seed=seed))
